@@ -123,9 +123,37 @@ def _c12_nontrivial(ops):
     return False
 
 
+def prop_C13(tier, seed, rng):
+    import lpm_gen
+    quick = tier == "quick"
+    design = [design_check("MCLPM", "MCLPMQuick.cfg" if quick else "MCLPM.cfg")]
+    s1, g1 = tlc_scripts("GenLPM", "GenLPM.cfg" if quick else "GenLPMDeep.cfg", rng, 4000 if quick else 80000)
+    s2 = lpm_gen.generate(1500 if quick else 30000, seed + 2)
+    fams = [Family("tlc", "lpm", "LPMTrace", s1, g1), Family("shaped", "lpm", "LPMTrace", s2)]
+    return design, fams, ["C13_"], dict(
+        rule="scripts = (a) one per transition of the bounded LPM.tla state graph, (b) shaped histories over clustered "
+             "prefixes of lengths {0,1,2,7,8,9,W-1,W} (W in 8..24) with query prefixes that are stored, ancestors, "
+             "descendants or diverge at any bit, full-length lookup keys, transactions reused after commit, branching "
+             "and abandoned transactions; non-trivial = a query on a trie holding >= 2 prefixes",
+        nontrivial=_c13_nontrivial,
+        assumptions=["Lookup is judged only for full-length keys and stored prefixes (the property's domain)",
+                     "values are ints"])
+
+
+def _c13_nontrivial(ops):
+    ins = 0
+    for op in ops:
+        if op["op"] == "insert":
+            ins += 1
+        if ins >= 2 and op["op"] in ("lookup", "prefix", "lowerbound", "all", "exact"):
+            return True
+    return False
+
+
 PROPS = {
     "C11": prop_C11,
     "C12": prop_C12,
+    "C13": prop_C13,
 }
 
 
@@ -168,6 +196,11 @@ def run_check(prop, tier):
                 other_all.append((fam, rec))
         violations = 0
         seen_known = set()
+        by_inv = {}
+        for fam, rec in bad_all:
+            by_inv[rec[2]] = by_inv.get(rec[2], 0) + 1
+        if by_inv:
+            log("[violations by invariant] " + json.dumps(by_inv, sort_keys=True))
         for fam, (sid, ln, inv, ev, ops) in bad_all:
             k = core.match_known(prop, inv, ev, known)
             if k is not None:
